@@ -74,9 +74,16 @@ def restyle(plan: dict, index: int, env_name: str = None) -> dict:
 
 
 def host(x):
+    """Pull a pytree to host.  New-style typed PRNG keys (jax.random.key) are shown as their raw key data."""
     import jax
 
-    return jax.device_get(x)
+    def raw(leaf):
+        dt = getattr(leaf, "dtype", None)
+        if dt is not None and jax.dtypes.issubdtype(dt, jax.dtypes.prng_key):
+            return jax.random.key_data(leaf)
+        return leaf
+
+    return jax.device_get(jax.tree_util.tree_map(raw, x))
 
 
 class Recorder:
